@@ -188,6 +188,23 @@ class Option(Evaluatable[A]):
         else:
             raise KeyNotFoundError(self.key, self)
 
+    @staticmethod
+    def _template_keys(value: Any, method: str, options: Options) -> Set[str]:
+        """Keys referenced by templated strings in a provided value.
+
+        Values are resolved recursively through mappings and lists, so the
+        templated strings they contain are inspected the same way.
+        """
+        if isinstance(value, str):
+            return getattr(Template(value), method)(options)
+        if isinstance(value, Mapping):
+            value = list(value.values())
+        if isinstance(value, list):
+            return set().union(
+                *(Option._template_keys(item, method, options) for item in value)
+            )
+        return set()
+
     def _domain_keys(self, options: Options) -> Set[str]:
         return set() if self.domain is MISSING else self.domain.keys(options)
 
@@ -204,14 +221,11 @@ class Option(Evaluatable[A]):
         """
         if dotted_key_exists(self.key, options):
             value = get_dotted_key(self.key, options)
-            if isinstance(value, str):
-                return (
-                    {self.key}
-                    | Template(value).keys(options)
-                    | self._domain_keys(options)
-                )
-            else:
-                return {self.key} | self._domain_keys(options)
+            return (
+                {self.key}
+                | self._template_keys(value, "keys", options)
+                | self._domain_keys(options)
+            )
         elif self.default is not MISSING:
             return self.default.keys(options) | self._domain_keys(options)
         else:
@@ -222,14 +236,11 @@ class Option(Evaluatable[A]):
         options = options or {}
         if dotted_key_exists(self.key, options):
             value = get_dotted_key(self.key, options)
-            if isinstance(value, str):
-                return (
-                    {self.key}
-                    | Template(value).explain(options)
-                    | self._domain_explain(options)
-                )
-            else:
-                return {self.key} | self._domain_explain(options)
+            return (
+                {self.key}
+                | self._template_keys(value, "explain", options)
+                | self._domain_explain(options)
+            )
         elif self.default is not MISSING:
             return self.default.explain(options) | self._domain_explain(options)
         else:
